@@ -134,16 +134,83 @@ func (r *Run) seedModel(extra []Pred) map[int]*big.Int {
 	return nil
 }
 
-// solveEqs extends asg so that every polynomial in eqs evaluates to 0: variables in non-linear
-// monomials are fixed at random until the system is linear, then Gaussian elimination over GF(q).
+// solveEqs extends asg so that every polynomial in eqs evaluates to 0. It alternates (1) Gaussian
+// elimination over GF(q) on the currently linear equations, substituting the solved pivots (as
+// affine expressions in the free variables) into the remaining equations, and (2) fixing at random
+// a variable that occurs in a non-linear monomial, until nothing is left.
 func (r *Run) solveEqs(eqs []*Poly, asg map[int]*big.Int, try int) bool {
 	if len(eqs) == 0 {
 		return true
 	}
-	cur := make([]*Poly, len(eqs))
-	copy(cur, eqs)
+	cur := make([]*Poly, 0, len(eqs))
+	for _, p := range eqs {
+		cur = append(cur, p)
+	}
+	// expr holds solved variables as polynomials over still-free variables
+	expr := map[int]*Poly{}
+	substAll := func(id int, e *Poly) {
+		for i, p := range cur {
+			cur[i] = p.subst(id, e, r.q)
+		}
+		for k, x := range expr {
+			expr[k] = x.subst(id, e, r.q)
+		}
+	}
 	for iter := 0; iter < 10000; iter++ {
-		// count variable occurrences in non-linear monomials
+		// drop trivially true, fail on trivially false
+		next := cur[:0]
+		for _, p := range cur {
+			if p.isZero() {
+				continue
+			}
+			if p.isConst() {
+				return false
+			}
+			next = append(next, p)
+		}
+		cur = next
+		if len(cur) == 0 {
+			break
+		}
+		// (1) a linear equation: solve it for one of its variables
+		solved := false
+		for i, p := range cur {
+			if !p.isLinear() {
+				continue
+			}
+			// pick the variable with the largest id (most recently created)
+			best := -1
+			for m := range p.t {
+				if m == "" {
+					continue
+				}
+				v := monoVars(m)[0]
+				if v > best {
+					best = v
+				}
+			}
+			if best < 0 {
+				continue
+			}
+			c := p.t[itoa(best)]
+			rest := &Poly{t: map[string]*big.Int{}}
+			for m, cc := range p.t {
+				if m != itoa(best) {
+					rest.t[m] = cc
+				}
+			}
+			inv := new(big.Int).ModInverse(c, r.q)
+			e := rest.scale(new(big.Int).Neg(inv), r.q)
+			cur = append(cur[:i], cur[i+1:]...)
+			substAll(best, e)
+			expr[best] = e
+			solved = true
+			break
+		}
+		if solved {
+			continue
+		}
+		// (2) all remaining equations are non-linear: fix one variable at random
 		cnt := map[int]int{}
 		for _, p := range cur {
 			for m := range p.t {
@@ -155,12 +222,12 @@ func (r *Run) solveEqs(eqs []*Poly, asg map[int]*big.Int, try int) bool {
 				}
 			}
 		}
-		if len(cnt) == 0 {
-			break
-		}
 		ids := make([]int, 0, len(cnt))
 		for id := range cnt {
 			ids = append(ids, id)
+		}
+		if len(ids) == 0 {
+			return false
 		}
 		sort.Slice(ids, func(i, j int) bool {
 			if cnt[ids[i]] != cnt[ids[j]] {
@@ -173,104 +240,24 @@ func (r *Run) solveEqs(eqs []*Poly, asg map[int]*big.Int, try int) bool {
 			pick = ids[r.eng.rng.Intn(min(len(ids), 1+try))]
 		}
 		val := r.uniformScalar()
+		if try >= 3 && r.eng.rng.Intn(3) == 0 {
+			val = big.NewInt(0)
+		}
 		asg[pick] = val
-		one := map[int]*big.Int{pick: val}
-		for i, p := range cur {
-			cur[i] = polyPartial(p, one, r.q)
+		substAll(pick, polyConst(val, r.q))
+	}
+	// free variables of the solved expressions get random values, then evaluate the expressions
+	free := map[int]bool{}
+	for _, e := range expr {
+		e.varSet(free)
+	}
+	for id := range free {
+		if _, ok := asg[id]; !ok {
+			asg[id] = r.uniformScalar()
 		}
 	}
-	// linear system
-	colOf := map[int]int{}
-	var cols []int
-	for _, p := range cur {
-		for m := range p.t {
-			if m == "" {
-				continue
-			}
-			v := monoVars(m)[0]
-			if _, ok := colOf[v]; !ok {
-				colOf[v] = len(cols)
-				cols = append(cols, v)
-			}
-		}
-	}
-	n := len(cols)
-	rows := make([][]*big.Int, 0, len(cur))
-	for _, p := range cur {
-		if p.isZero() {
-			continue
-		}
-		row := make([]*big.Int, n+1)
-		for i := range row {
-			row[i] = new(big.Int)
-		}
-		for m, c := range p.t {
-			if m == "" {
-				row[n] = new(big.Int).Sub(r.q, c) // move constant to rhs
-				row[n].Mod(row[n], r.q)
-			} else {
-				row[colOf[monoVars(m)[0]]] = new(big.Int).Set(c)
-			}
-		}
-		rows = append(rows, row)
-	}
-	// Gauss-Jordan
-	pivotCol := make([]int, 0)
-	rk := 0
-	for c := 0; c < n && rk < len(rows); c++ {
-		p := -1
-		for i := rk; i < len(rows); i++ {
-			if rows[i][c].Sign() != 0 {
-				p = i
-				break
-			}
-		}
-		if p < 0 {
-			continue
-		}
-		rows[rk], rows[p] = rows[p], rows[rk]
-		inv := new(big.Int).ModInverse(rows[rk][c], r.q)
-		for j := c; j <= n; j++ {
-			rows[rk][j].Mul(rows[rk][j], inv)
-			rows[rk][j].Mod(rows[rk][j], r.q)
-		}
-		for i := 0; i < len(rows); i++ {
-			if i == rk || rows[i][c].Sign() == 0 {
-				continue
-			}
-			f := new(big.Int).Set(rows[i][c])
-			for j := c; j <= n; j++ {
-				t := new(big.Int).Mul(f, rows[rk][j])
-				rows[i][j].Sub(rows[i][j], t)
-				rows[i][j].Mod(rows[i][j], r.q)
-			}
-		}
-		pivotCol = append(pivotCol, c)
-		rk++
-	}
-	for i := rk; i < len(rows); i++ {
-		if rows[i][n].Sign() != 0 {
-			return false // inconsistent under the random choices
-		}
-	}
-	isPivot := map[int]bool{}
-	for _, c := range pivotCol {
-		isPivot[c] = true
-	}
-	for c := 0; c < n; c++ {
-		if !isPivot[c] {
-			asg[cols[c]] = r.uniformScalar()
-		}
-	}
-	for i, c := range pivotCol {
-		v := new(big.Int).Set(rows[i][n])
-		for j := 0; j < n; j++ {
-			if j != c && rows[i][j].Sign() != 0 {
-				t := new(big.Int).Mul(rows[i][j], asg[cols[j]])
-				v.Sub(v, t)
-			}
-		}
-		asg[cols[c]] = v.Mod(v, r.q)
+	for id, e := range expr {
+		asg[id] = e.eval(asg, r.q)
 	}
 	return true
 }
